@@ -1131,6 +1131,53 @@ def loop_carried(loop):
     return out
 
 
+def unsorted_groupby(prog, fi):
+    """itertools.groupby merges only CONSECUTIVE equal keys: calls in fi
+    whose iterable is not visibly sorted by the grouping key (sorted(x,
+    key=K) with the same key text, or a name bound to such a value / sorted
+    in place just before).  Returns [(call, description)]."""
+    mod = prog.modules[fi.module]
+    out = []
+    for c in walk_no_nested(fi.node):
+        if not isinstance(c, ast.Call):
+            continue
+        d = prog.dotted(mod, c.func) if isinstance(c.func, ast.Attribute) \
+            else prog.resolve_name(mod, norm(c.func))
+        if d != "itertools.groupby" or not c.args:
+            continue
+        key = kwarg(c, "key") or (c.args[1] if len(c.args) > 1 else None)
+        ktxt = norm(key) if key is not None else None
+        it = c.args[0]
+
+        def is_sorted(e, depth=0):
+            if isinstance(e, ast.Call) and norm(e.func) == "sorted":
+                k2 = kwarg(e, "key")
+                return (norm(k2) if k2 is not None else None) == ktxt
+            if isinstance(e, ast.Name) and depth < 3:
+                defs = [st for st in walk_no_nested(fi.node)
+                        if isinstance(st, ast.Assign) and any(
+                            isinstance(t, ast.Name) and t.id == e.id
+                            for t in st.targets) and st.lineno < c.lineno]
+                if defs and is_sorted(max(defs, key=lambda s_: s_.lineno)
+                                      .value, depth + 1):
+                    return True
+                for st in walk_no_nested(fi.node):
+                    if isinstance(st, ast.Expr) and isinstance(
+                            st.value, ast.Call) and isinstance(
+                                st.value.func, ast.Attribute) and \
+                            st.value.func.attr == "sort" and \
+                            norm(st.value.func.value) == e.id and \
+                            st.lineno < c.lineno:
+                        k2 = kwarg(st.value, "key")
+                        if (norm(k2) if k2 is not None else None) == ktxt:
+                            return True
+            return False
+        if not is_sorted(it):
+            out.append((c, "groupby over `%s`, which is not sorted by the "
+                        "grouping key" % norm(it, 40)))
+    return out
+
+
 def view_writes(fnode, root_attrs=("img", "rmsimg", "bkgimg", "dcurve")):
     """In-place writes (subscript stores, augmented assignments, fill /
     sort / put) through a name that may be a VIEW of one of the shared image
